@@ -241,6 +241,14 @@ HOOKS['step_hour'] = [(r'return impl :: n_hour \(', "BOUND_DAYORD(f.y, f.m, f.d)
 HOOKS['step_day'] = [(r'return impl :: n_day \(', "BOUND_DAYORD(f.y, f.m, f.d);\n" + use('validday', ['f.y', 'f.m', 'f.d']) + "\n" + use('valid28', ['f.y', 'f.m', '1']) + "\nREVEAL_NDAY_PRE(f.y, f.m, f.d, n);\nREVEAL_DAYORD(f.y, f.m, 1);\nREVEAL_DAYORD(f.y, f.m, f.d);")]
 
 
+_SMY = "(year_t)NMON_Y1(f.y + n / 12, f.m + n % 12)"
+_SMM = "NMON_M1(f.m + n % 12)"
+HOOKS['step_month'] = [(r'return impl :: n_mon \(', use('stepmon', ['f.y', 'f.m', 'n']) + "\n" +
+    cut("((Z)(diff_t)(f.m + n % 12) == SM_M(f.m, n) && FITS64(SM_Y(f.y, n)))", "ghost cut: the split of n does not overflow") + "\n" +
+    use('valid28', [_SMY, _SMM, 'f.d']) + "\n" + use('validrepr', [_SMY, _SMM, 'f.d']) + "\n" +
+    use('nmonpre', [_SMY, _SMM, 'f.d', '(Z)0']) + "\n" +
+    use('nmonpre_carry', ['f.y + n / 12', 'f.m + n % 12', 'f.d', '(Z)0']))]
+
 # --- C05: difference ------------------------------------------------------------------------------------
 _B2 = "BOUND_DAYORD(f1.y, f1.m, f1.d);\nBOUND_DAYORD(f2.y, f2.m, f2.d);"
 GHOST['difference_hour'] = {0: _B2 + "\n" + "USE(lemma_fits_REQ(UDIFF_day(f1, f2), f1.hh - f2.hh, 24), lemma_fits_ENS(UDIFF_day(f1, f2), f1.hh - f2.hh, 24), \"fits\");"}
@@ -307,6 +315,14 @@ def _minus_ghost(tag):
 for _t in ('second', 'minute', 'hour', 'day'):
     HOOKS['ct_%s_minus' % _t] = [(r'return n != \( std :: numeric_limits < diff_t > :: min \) \( \)', _minus_ghost(_t))]
 
+
+HOOKS['ct_month_minus'] = [(r'return n != \( std :: numeric_limits < diff_t > :: min \) \( \)', "\n".join([
+    "if (n == INT_FAST64_MIN) {",
+    "const Z g_u0 = MONORD_F(a);", "const Z g_u1 = g_u0 + (Z)INT64_MAX;", "const Z g_u2 = g_u0 + (Z)INT64_MAX + 1;",
+    cut("FD(g_u0, 12) == (Z)a.y", "the year of the argument's month ordinal is its year"),
+    use('fd12_mono', ['g_u0', 'g_u1']), use('fd12_mono', ['g_u1', 'g_u2']),
+    cut("REPR_month(g_u1)", "the intermediate ordinal is representable"),
+    "}"]))]
 
 # --- year alignment: a day number <= 28 exists in every month of every year ------------------------------------------------------------
 GHOST['step_year'] = {0: "REVEAL_VALIDD(f.y, f.m, f.d);\nREVEAL_VALIDD(f.y + n, f.m, f.d);"}
